@@ -604,3 +604,108 @@ fn c05_num_length() {
     let rf = MD::new(MD::new(Num::Float(f)).length());
     assert!(matches!(&*rf, Num::Float(z) if same_float(*z, f.abs())));
 }
+
+// ------------------------------------------------------------------------------------------
+// Point obligations: the big-integer arms at concrete boundary values.  num-bigint cannot be
+// executed symbolically (DESIGN.md 2), but with concrete operands CBMC simply runs it; the two
+// x86 carry intrinsics it uses are given their architectural definition.
+// ------------------------------------------------------------------------------------------
+pub unsafe fn addcarry_def(c_in: u8, a: u64, b: u64, out: &mut u64) -> u8 {
+    let s = a as u128 + b as u128 + (c_in != 0) as u128;
+    *out = s as u64;
+    (s >> 64) as u8
+}
+pub unsafe fn subborrow_def(c_in: u8, a: u64, b: u64, out: &mut u64) -> u8 {
+    let s = (a as i128) - (b as i128) - ((c_in != 0) as i128);
+    *out = s as u64;
+    (s < 0) as u8
+}
+fn big(x: i128) -> Num {
+    Num::big_int(BigInt::from(x))
+}
+const MAXI: i128 = isize::MAX as i128;
+const MINI: i128 = isize::MIN as i128;
+/// value of an integer `Num` (both representations)
+fn int_value(n: &Num) -> Option<i128> {
+    match n {
+        Num::Int(i) => Some(*i as i128),
+        Num::BigInt(b) => b.to_i128(),
+        _ => None,
+    }
+}
+
+/// C08 points: ordering / equality / hashing across Int, BigInt and Float representations
+#[kani::proof]
+#[kani::unwind(26)]
+fn c08_big_points() {
+    // a big integer against infinities and floats, in both argument orders
+    let b = MD::new(big(100000000000000000000));
+    let (inf, ninf) = (MD::new(Num::Float(f64::INFINITY)), MD::new(Num::Float(f64::NEG_INFINITY)));
+    assert!((*inf).cmp(&*b) == Greater && (*b).cmp(&*inf) == Less);
+    assert!((*ninf).cmp(&*b) == Less && (*b).cmp(&*ninf) == Greater);
+    assert!(*b != *inf && *inf != *b);
+    // the same integer in three representations: equal, ordered Equal, hashing alike
+    let (i5, b5, f5) = (MD::new(Num::Int(5)), MD::new(big(5)), MD::new(Num::Float(5.0)));
+    assert!(*i5 == *b5 && *b5 == *i5 && *b5 == *f5 && *f5 == *b5);
+    assert!((*i5).cmp(&*b5) == Equal && (*b5).cmp(&*i5) == Equal && (*b5).cmp(&*f5) == Equal && (*f5).cmp(&*b5) == Equal);
+    assert!(stream(&i5) == stream(&b5) && stream(&b5) == stream(&f5));
+    let (z, bz) = (MD::new(Num::Int(0)), MD::new(big(0)));
+    assert!(*z == *bz && stream(&z) == stream(&bz));
+    // big integers beyond the machine range: ordered among themselves and against machine integers
+    let (p, q) = (MD::new(big(MAXI + 1)), MD::new(big(MAXI + 2)));
+    let (mx, mn, bmn) = (MD::new(Num::Int(isize::MAX)), MD::new(Num::Int(isize::MIN)), MD::new(big(MINI - 1)));
+    assert!((*p).cmp(&*q) == Less && (*q).cmp(&*p) == Greater && (*p).cmp(&*p) == Equal);
+    assert!((*mx).cmp(&*p) == Less && (*p).cmp(&*mx) == Greater && *mx != *p);
+    assert!((*bmn).cmp(&*mn) == Less && (*mn).cmp(&*bmn) == Greater);
+    assert!((*bmn).cmp(&*p) == Less);
+    // a small float against a big-integer one (float left / right)
+    let (half, b1) = (MD::new(Num::Float(0.5)), MD::new(big(1)));
+    assert!((*half).cmp(&*b1) == Less && (*b1).cmp(&*half) == Greater);
+}
+
+/// C09 / C10 points: observers on big integers agree with the machine-integer answers
+#[kani::proof]
+#[kani::unwind(8)]
+fn c09_big_observers() {
+    let (b5, bm1, b0) = (MD::new(big(5)), MD::new(big(-1)), MD::new(big(0)));
+    assert!(b5.is_int() && b5.as_isize() == Some(5) && b5.as_f64() == 5.0);
+    assert!(bm1.as_isize() == Some(-1) && b0.as_isize() == Some(0));
+    assert!(matches!(b5.as_pos_usize(), Some(PosUsize(true, 5))));
+    assert!(matches!(bm1.as_pos_usize(), Some(PosUsize(false, 1))));
+    // zero is not negative: it must not wrap to the end of the container
+    assert!(matches!(b0.as_pos_usize(), Some(PosUsize(true, 0))));
+    let (p, n) = (MD::new(big(MAXI + 1)), MD::new(big(MINI - 1)));
+    assert!(p.is_int() && p.as_isize().is_none() && n.as_isize().is_none());
+    assert!(matches!(p.as_pos_usize(), Some(PosUsize(true, m)) if m as i128 == MAXI + 1));
+    let huge = MD::new(big(1i128 << 70));
+    assert!(huge.as_pos_usize().is_none() && huge.as_isize().is_none());
+    // length (absolute value)
+    assert!(int_value(&MD::new(bm1.length())) == Some(1));
+    assert!(int_value(&MD::new(n.length())) == Some(-(MINI - 1)));
+}
+
+/// C09 points: which big-integer operator the fall-back applies, and operand order in the
+/// mixed Int / BigInt arms
+#[kani::proof]
+#[kani::unwind(8)]
+#[kani::stub(core::arch::x86_64::_addcarry_u64, addcarry_def)]
+#[kani::stub(core::arch::x86_64::_subborrow_u64, subborrow_def)]
+fn c09_big_arith() {
+    let v = |n: Num| int_value(&MD::new(n));
+    // overflowing machine-integer operations take the exact big-integer value
+    assert!(v(Num::Int(isize::MAX) + Num::Int(1)) == Some(MAXI + 1));
+    assert!(v(Num::Int(isize::MIN) - Num::Int(1)) == Some(MINI - 1));
+    assert!(v(Num::Int(isize::MIN) + Num::Int(-1)) == Some(MINI - 1));
+    assert!(v(-Num::Int(isize::MIN)) == Some(-MINI));
+    assert!(v(Num::Int(isize::MAX) - Num::Int(-1)) == Some(MAXI + 1));
+    // mixed representations, both operand orders
+    assert!(v(Num::Int(1) - big(MAXI + 1)) == Some(1 - (MAXI + 1)));
+    assert!(v(big(MAXI + 1) - Num::Int(1)) == Some(MAXI));
+    assert!(v(Num::Int(1) + big(MAXI + 1)) == Some(MAXI + 2));
+    assert!(v(big(MAXI + 1) + Num::Int(1)) == Some(MAXI + 2));
+    assert!(v(big(MAXI + 1) - big(MAXI + 1)) == Some(0));
+    assert!(v(-big(MAXI + 1)) == Some(-(MAXI + 1)));
+}
+
+// (Products and remainders through num-bigint exhaust CBMC's memory even on concrete operands;
+// which operator the fall-back closure of `*` applies is pinned only by the test suite.)
